@@ -573,7 +573,21 @@ func init() {
 }
 
 // JSON maps nil []byte / nil slices to null and back to nil; NaN is rejected (tested separately)
-func jsonNormal(d pDoc) pDoc { return d }
+func jsonNormal(d pDoc) pDoc {
+	// encoding/json writes U+FFFD for every byte that is not valid UTF-8 (documented coercion)
+	var sb strings.Builder
+	for i := 0; i < len(d.S); {
+		r, size := utf8.DecodeRuneInString(d.S[i:])
+		if r == utf8.RuneError && size == 1 {
+			sb.WriteString("\uFFFD")
+		} else {
+			sb.WriteString(d.S[i : i+size])
+		}
+		i += size
+	}
+	d.S = sb.String()
+	return d
+}
 func gobNormal(d pDoc) pDoc {
 	// gob does not transmit empty slices / zero fields: they come back as nil / zero
 	if len(d.B) == 0 {
@@ -751,7 +765,18 @@ func randomRes(rec []pNotif, n, size int, charset []rune, subs, tears int, runes
 	if values != n {
 		ok = "0:count"
 	}
-	return pRes{out: "~random", same: ok, late: lateChanged(rec), flav: "-", rel: subs == 1 && tears == 1, gram: recGrammar(rec)}
+	parts := make([]string, len(rec))
+	for i, r := range rec {
+		switch r.kind {
+		case 'N':
+			parts[i] = "NR" + strconv.Itoa(len(runes(r.val))) + "/" + r.ctx
+		case 'E':
+			parts[i] = "E" + modelErr(r.err) + "/" + r.ctx
+		default:
+			parts[i] = "C/" + r.ctx
+		}
+	}
+	return pRes{out: "~" + joinOrDash(parts), same: ok, late: lateChanged(rec), flav: "-", rel: subs == 1 && tears == 1, gram: recGrammar(rec)}
 }
 
 func flavourAgree(t textOp, ps []string, texts [][]byte) string {
@@ -1087,11 +1112,12 @@ func registerOwnOps() {
 			exp = append(exp, pExp{kind: 'N', canon: canonAny(count), ctx: endCtx()})
 			exp = append(exp, endExp(end)...)
 		}
-		snap := snapBacked(bk)
-		_ = snap
-		written := b01(bytes.Equal(w.buf.Bytes(), rw.buf.Bytes()))
+		// what reached the writer: exactly the reference when nothing failed; after a failed Write the
+		// operator keeps consuming a synchronous source (kernel semantics: the downstream gate is closed,
+		// the source is not interrupted), so the reference is then only a prefix
+		written := b01(bytes.Equal(w.buf.Bytes(), rw.buf.Bytes()) || (failed && bytes.HasPrefix(w.buf.Bytes(), rw.buf.Bytes())))
 		return pRes{out: renderRec(rec, false), same: compareExp(rec, exp), mut: inputsChanged(bk), late: lateChanged(rec), flav: "-",
-			rel: subs == 1 && tears == 1, gram: recGrammar(rec), extra: []string{"written=" + written}}
+			rel: subs == 1 && tears == 1, gram: recGrammar(rec), extra: []string{"written=" + written, "writes_after_failure=" + strconv.Itoa(w.calls-rw.calls)}}
 	}
 
 	// csv.NewCSVReader: in = the CSV text; p = comma byte (decimal) , lazyQuotes 0/1
